@@ -259,8 +259,8 @@ def h_again(ctx):
 _pa = Part("same-object-serialized-again", h_again, split_depth=2)
 _pa.single_bucket_ok = True
 PARTS = [
-    Part("own-roundtrip", h_roundtrip, split_depth=3, budget={"quick": 120, "thorough": 1800}),
-    Part("foreign-streams", h_foreign, split_depth=3, budget={"quick": 120, "thorough": 1800}),
-    Part("limit-reached-at-input-offsets", h_aligned, split_depth=2, budget={"quick": 120, "thorough": 1800}),
+    Part("own-roundtrip", h_roundtrip, split_depth=3, budget={"quick": 1200, "thorough": 1800}),
+    Part("foreign-streams", h_foreign, split_depth=3, budget={"quick": 1200, "thorough": 1800}),
+    Part("limit-reached-at-input-offsets", h_aligned, split_depth=2, budget={"quick": 1200, "thorough": 1800}),
     _pa,
 ]
